@@ -19,6 +19,7 @@ def dispatch (toks : List String) : String :=
   | "RE" :: rest => Poor.Drv.Route.handleRe rest
   | "JS" :: rest => Poor.Drv.Json.handle rest
   | "RL" :: rest => Poor.Drv.ReadAll.handle rest
+  | "PW" :: rest => Poor.Drv.PwFile.handle rest
   | "C18" :: rest => Poor.Drv.HeaderValue.handle rest
   | "C13" :: rest => Poor.Drv.Session.handle rest
   | "C12" :: rest => Poor.Drv.Static.handle rest
